@@ -562,5 +562,13 @@ def r2_8(run):
     run.floor(8)
 
 
-RULES = [("R2.1", r2_1), ("R2.2", r2_2), ("R2.3", r2_3), ("R2.4", r2_4), ("R2.5", r2_5), ("R2.6", r2_6), ("R2.7", r2_7)]
+def r2_9(run):
+    """the law is compared with the numpy kernels (R2.1, R2.2); the numba twins the solver uses by default must compute the
+    same guarded expressions (shared with C07 R7.1, restricted to the hydraulic kernels)"""
+    from .c07 import r7_1
+    r7_1(run, only={"derivatives_hydraulic_incomp", "derivatives_hydraulic_comp", "calc_lambda_nikuradse_incomp",
+                    "calc_lambda_nikuradse_comp", "calc_medium_pressure_with_derivative", "get_branch_results_gas"}, floor=20, residual_only=True)
+
+
+RULES = [("R2.1", r2_1), ("R2.2", r2_2), ("R2.3", r2_3), ("R2.4", r2_4), ("R2.5", r2_5), ("R2.6", r2_6), ("R2.7", r2_7), ("R2.9", r2_9)]
 THOROUGH = [("R2.8", r2_8)]
